@@ -17,6 +17,15 @@ TRUSTED = [
     "direct oracle: every recorded raw path is resolved lexically in python (no empty, '.', '..' component, none that NTFS or HFS+ folds to "
     "'..', no backslash, first component refs / logs / packed-refs / an all-caps pseudo-ref / the packed-refs temp file), and a refusal must "
     "come before any filesystem call",
+    "symtree suite (oracle only, no model): a real directory opened as go-git opens repositories (osfs BoundOS, filesystem.NewStorage) whose refs/ and "
+    "logs/ trees contain symbolic links to directories and files in hooks/, info/, objects/info, .git itself and outside the repository, a sentinel "
+    "(script, text, object-id-valued file) at every target; every entry point (Reference, SetReference, CheckAndSetReference, RemoveReference, "
+    "IterReferences, PackRefs, Reflog, AppendReflog, DeleteReflog) is run once and a full before/after snapshot of everything outside refs/**, logs/**, "
+    "packed-refs*, .tmp and the all-caps slots must be identical, and no listed / packed reference may denote (after OS resolution) a file outside "
+    "refs/ or carry a sentinel's value; a refusal or error is fine. Not judged (same behaviour validated on git 2.39.5): the ONE file a named operation's "
+    "own name resolves to, and a link whose last component is the link (read like a loose reference file; packing removes the link, not the target). "
+    "Stricter than git for IterReferences/PackRefs through a linked directory: git pack-refs --all follows it and prunes object-id-valued files there; "
+    "go-git refuses (ErrIsDir) and the suite keeps it so",
 ]
 ASSUMPTIONS = ["paths are resolved lexically by the filesystem: no component inside refs/ or logs/ is a symbolic link (the OS resolver is outside the model)",
                "NTFS treats trailing spaces/periods and ':stream' suffixes, HFS+ the sixteen ignorable code points, as in git's is_ntfs_dot_generic / is_hfs_dot_generic",
@@ -25,7 +34,9 @@ RULE = ("case = (name, entry point, repository state); names: dot-dot and absolu
         "HFS+ disguises (ignorable code points around the dots, also invalid UTF-8 look-alikes), control bytes, lower-case one-level names "
         "(config, index, objects/..), pseudo-refs, names with spaces, random strings over the path alphabet, small-scope exhaustive "
         "enumeration over {a . / \\\\ space :} (length <= 3 quick, <= 5 thorough); non-trivial = the name is not a plain refs/heads/<word>; "
-        "distinct by content")
+        "distinct by content; symtree: (links planted below refs/ and logs/ from a table of 15 directory and 8 file links, "
+        "relative / absolute / nested / out of the repository, entry point, name through the link, packed-refs present or not): every directory link "
+        "alone under list and pack, file links, mixed trees, named operations through a link")
 
 OPS = ["set", "cas", "ref", "rm", "list", "pack", "logread", "logwrite", "logdel"]
 ZW = [b"\xe2\x80\x8c", b"\xe2\x80\x8d", b"\xe2\x80\x8e", b"\xe2\x80\x8f", b"\xe2\x80\xaa", b"\xe2\x80\xae", b"\xe2\x81\xaa", b"\xe2\x81\xaf", b"\xef\xbb\xbf"]
@@ -168,4 +179,135 @@ class Main(Suite):
         return dict(self.stats, symlink_probe=r.get("out"))
 
 
-SUITES = [Main()]
+# ---------------------------------------------------------------- symlinked refs / logs trees (oracle only)
+
+# (link location below .git, link text).  Directory targets inside .git but outside refs/ (the bound filesystem
+# does not stop those), relative and absolute, nested, outside the repository; file targets too.
+SYM_DIR_LINKS = [
+    ("refs/heads/shared", "../../hooks"), ("refs/meta", "../info"), ("refs/heads/topic/oi", "../../../objects/info"),
+    ("refs/tags/h", "../../hooks"), ("refs/remotes", "../hooks"), ("refs/heads/absd", "ABS:.git/hooks"),
+    ("refs/heads/sub", "../../hooks/sub"), ("refs/heads/out", "../../../outside"), ("refs/heads/absout", "ABS:outside"),
+    ("refs/heads/dotgit", "../.."), ("refs/notes", "../objects/info"),
+    ("logs/refs/heads/shared", "../../../hooks"), ("logs/meta", "../info"), ("logs/refs/out", "../../../outside"),
+    ("logs/refs/heads/absd", "ABS:.git/info"),
+]
+SYM_FILE_LINKS = [
+    ("refs/heads/fhook", "../../hooks/pre-push"), ("refs/heads/fhash", "../../hooks/hashy"), ("refs/tags/fexcl", "../../info/exclude"),
+    ("refs/heads/fout", "../../../outside/hashy"), ("refs/heads/fabs", "ABS:.git/info/hashy"), ("refs/heads/fcfg", "../../config"),
+    ("logs/refs/heads/fhook", "../../../hooks/pre-push"), ("logs/refs/heads/fout", "../../../../outside/exclude"),
+]
+SYM_OPS = ["ref", "set", "cas", "rm", "list", "pack", "logread", "logwrite", "logdel"]
+SYM_LEAVES = ["pre-push", "hashy", "exclude", "planted", "sub/hashy", "deep/hashy"]
+
+
+class SymTree(Suite):
+    """oracle only: the OS resolver is outside the model; the property is judged on a real directory"""
+    name = "symtree"
+    go_cmd = "c14"
+    quick_n = 40
+    thorough_n = 400
+
+    def gen(self, rng, n, tier):
+        cases = []
+
+        def add(bucket, links, op, name, packed=None):
+            cases.append({"bucket": bucket, "symtree": True, "links": [{"at": a, "to": t} for a, t in links], "op": op,
+                          "name": name.encode().hex(), "packed": rng.random() < 0.5 if packed is None else packed})
+        # the whole-tree operations over every directory link, alone
+        for lk in SYM_DIR_LINKS:
+            if lk[0].startswith("refs/"):
+                add("walk-dir", [lk], "list", "refs/heads/main")
+                add("walk-dir", [lk], "pack", "refs/heads/main")
+        for lk in SYM_FILE_LINKS:
+            if lk[0].startswith("refs/"):
+                add("walk-file", [lk], rng.choice(["list", "pack"]), "refs/heads/main")
+        add("walk-plain", [], "list", "refs/heads/main")
+        add("walk-plain", [], "pack", "refs/heads/main")
+        for _ in range(n):
+            k = pick_weighted(rng, [(3, "walk-mixed"), (4, "named-dir"), (2, "named-file")])
+            if k == "walk-mixed":
+                links = rng.sample(SYM_DIR_LINKS, rng.randrange(1, 4)) + rng.sample(SYM_FILE_LINKS, rng.randrange(0, 2))
+                add(k, links, rng.choice(["list", "pack"]), "refs/heads/main")
+            elif k == "named-dir":
+                lk = rng.choice(SYM_DIR_LINKS)
+                at = lk[0][5:] if lk[0].startswith("logs/") else lk[0]
+                add(k, [lk] + rng.sample(SYM_DIR_LINKS, rng.randrange(0, 2)), rng.choice(SYM_OPS[:4] + SYM_OPS[6:]), at + "/" + rng.choice(SYM_LEAVES))
+            else:
+                lk = rng.choice(SYM_FILE_LINKS)
+                at = lk[0][5:] if lk[0].startswith("logs/") else lk[0]
+                add(k, [lk], rng.choice(SYM_OPS[:4] + SYM_OPS[6:]), at)
+        # one link per location
+        for c in cases:
+            seen, ls = set(), []
+            for l in c["links"]:
+                if l["at"] not in seen and not any(l["at"].startswith(o + "/") or o.startswith(l["at"] + "/") for o in seen):
+                    seen.add(l["at"])
+                    ls.append(l)
+            c["links"] = ls
+        return cases
+
+    def nontrivial(self, c):
+        return bool(c["links"])
+
+    def show(self, c):
+        return dict(c, name_text=bytes.fromhex(c["name"]).decode())
+
+    @staticmethod
+    def parse(out):
+        """( symtree status target (created…) (modified…) (deleted…) (leaked…) )"""
+        toks = out.replace("(", " ( ").replace(")", " ) ").split()
+        assert toks[0] == "(" and toks[1] == "symtree"
+        status, target, groups, cur = toks[2], bytes.fromhex(toks[3][1:]).decode("utf-8", "replace"), [], None
+        for t in toks[4:-1]:
+            if t == "(":
+                cur = []
+            elif t == ")":
+                groups.append(cur)
+            else:
+                cur.append(bytes.fromhex(t[1:]).decode("utf-8", "replace"))
+        return status, target, groups
+
+    def oracle(self, ctx, cases, impl, model):
+        fails = {}
+        self.stats = {"ok": 0, "err": 0, "refused": 0, "not_judged": 0}
+        for c in cases:
+            r = impl.get(c["id"])
+            if r is None or r.get("panic"):
+                continue
+            status, target, (created, modified, deleted, leaked) = self.parse(r["out"])
+            self.stats[status] += 1
+            name = bytes.fromhex(c["name"]).decode()
+            n0 = sum(map(len, (created, modified, deleted, leaked)))
+            if c["op"] in ("list", "pack"):
+                # a link whose LAST component is the link (refs/heads/x -> a file) is read like any loose reference file, by
+                # git 2.39.5 too (validated: show-ref lists it, pack-refs packs it and removes the link, not its target):
+                # not judged.  Anything reached THROUGH a linked directory is.
+                ats = {l["at"] for l in c["links"]}
+                leaked = [w for w in leaked if w.split(" ")[0] not in ats]
+            else:
+                # a named operation acts on the file its name denotes; the operating system resolves that name (git
+                # update-ref does the same through a linked directory): that one file, the directories leading to it and
+                # its value are not judged -- everything else is
+                keep = lambda p: not (p == target or target.startswith(p + "/"))
+                created, modified, deleted = [p for p in created if keep(p)], [p for p in modified if keep(p)], [p for p in deleted if keep(p)]
+                leaked = [w for w in leaked if w.split(" ")[0] not in (name, "logs/" + name)]
+            self.stats["not_judged"] += n0 - sum(map(len, (created, modified, deleted, leaked)))
+            why = []
+            if deleted:
+                why.append("deleted outside the refs namespace: %s" % deleted)
+            if modified:
+                why.append("modified outside the refs namespace: %s" % modified)
+            if created:
+                why.append("created outside the refs namespace: %s" % created)
+            if leaked:
+                why.append("presented as a reference: %s" % leaked)
+            if why:
+                fails[c["id"]] = "%s(%s) with links %s -> %s: %s" % (c["op"], bytes.fromhex(c["name"]).decode(),
+                                                                   [(l["at"], l["to"]) for l in c["links"]], status, "; ".join(why))
+        return fails
+
+    def extra(self, ctx, cases, impl, model):
+        return dict(self.stats)
+
+
+SUITES = [Main(), SymTree()]
